@@ -807,7 +807,7 @@ pub fn gen_case<'a>(w: &Workload<'a>, workload: &str, seed: u64, index: u64) -> 
 			}
 			let v6 = index >= 256;
 			let prefix = (index % 256) as u8;
-			let trees: Vec<SubtreeSpec> = (0..4)
+			let trees: Vec<SubtreeSpec> = (0..5)
 				.map(|ctor| {
 					SubtreeSpec::Ip(CidrSpec {
 						addr: rng.bytes(if v6 { 16 } else { 4 }),
